@@ -1,5 +1,5 @@
 (** FragSmall: bounded exhaustive check of C13 by computation: every item list of length <= 5 over
-    a 15-item alphabet (leading / non-leading descriptors with and without symbol (also the order-0 symbol), one- and
+    a 15-item alphabet (leading / non-leading descriptors with and without symbol (also the order-0 symbol and the order-1.5 symbol ':'), one- and
     two-letter atoms, bracket atoms with and without annotation, bond, branch, ring markers with
     and without symbol, slash).  Independent of the inductive proof in FragProofs.v. *)
 From Coq Require Import String.
@@ -72,7 +72,7 @@ Definition small_alphabet : list ditem :=
   [ ILead (mkd "$" [] None); ILead (mkd "<" (S "a") (Some BDouble));
     ITok C_; ITok (TAtom (S "Cl")); ITok (TBracket (S "NH3+") None); ITok (TBracket (S "C") (Some (S "x=R")));
     ITok (TBond BDouble); ITok TOpen; ITok TClose; ITok (TRing None (S "1")); ITok (TRing (Some BDouble) (S "%12"));
-    ITok (TSlash true); IDesc (mkd "$" [] None); IDesc (mkd ">" (S "1") (Some BTriple)); IDesc (mkd "!" [] (Some BZero)) ].
+    ITok (TSlash true); IDesc (mkd "$" [] None); IDesc (mkd ">" (S "1") (Some BArom)); IDesc (mkd "!" [] (Some BZero)) ].
 Definition small_bound : nat := 5.
 
 Definition check_item_list (items : list ditem) : bool :=
